@@ -196,6 +196,10 @@ class TransformationPerformer:
       ]
     consumers = []
     for original_op_id in instruction.consumers:
+      if original_op_id < 0:
+        # -1 stands for the graph output, it is not an operator position
+        consumers.append(-1)
+        continue
       consumers.append(
           self._original_op_id_map[transformation_inst.subgraph_id][
               original_op_id
@@ -218,9 +222,14 @@ class TransformationPerformer:
         transformation_inst.subgraph_id,
         trans_info,
     )
+    op_consumers = [
+        consumer for consumer in instruction.consumers if consumer >= 0
+    ]
     self._update_op_id_map(
         transformation_inst.subgraph_id,
-        min(instruction.consumers),
+        min(op_consumers)
+        if op_consumers
+        else len(self._original_op_id_map[transformation_inst.subgraph_id]),
         trans_info.num_ops_added,
     )
 
